@@ -68,7 +68,7 @@ func main() {
 		for _, g := range []struct {
 			name string
 			run  func(*vkit.Report)
-		}{{"regress", regress}, {"sleep+extreme", sleepCases}, {"gate", gateCases}, {"stress", stressCases}, {"ticker-extreme", tickerExtremes},
+		}{{"regress", regress}, {"sleep+extreme", sleepCases}, {"gate", gateCases}, {"stress", stressCases}, {"ticker-extreme", tickerExtremes}, {"ticker-years", tickerYears},
 			{"near", nearCases}, {"pool", poolCases}, {"ended-first", endedFirstCases}, {"lag", lagCases}, {"seq", seqCases}, {"refused", refusedCases}, {"outside", outside}} {
 			t := time.Now()
 			g.run(r)
@@ -91,6 +91,7 @@ func main() {
 		r.Floor("control sequences with a Stop on a stopped ticker", r.Table("seq", "sequences with a Stop on a stopped ticker"), 300)
 		r.Floor("lives judged against the old regime after a refused (panicking) Reset / New", r.Table("refused", "lives judged against the old regime after a refused call"), 600)
 		r.Floor("refused calls made while the timer callback was held at ticker.fire", r.Table("refused", "refused call made: callback held at ticker.fire"), 200)
+		r.Floor("armings with periods of years watched for an immediate tick", r.Table("ticker-years", "armings by NewJitterTicker watched >= 1 ms")+r.Table("ticker-years", "armings by Reset on a running ticker watched >= 1 ms"), 2000)
 		r.Floor("pool rounds (SleepContext ended at d+-30us, then plain sleeps)", r.Table("pool", "rounds"), 2000)
 		r.Floor("lagging-receiver tickers stopped at the second firing and looked at again", r.Table("lag", "stopped tickers looked at again >= 20 ms after the drain"), 5000)
 		r.Floor("JitterTicker lives with d >= MaxInt64/4", r.Table("ticker", "lives with d >= MaxInt64/4"), 8)
